@@ -112,6 +112,8 @@ type Exec struct {
 	beMemo    map[string]Term
 	divMemo   map[string][2]Term
 	nnVars    map[int]bool // solver constants known to be >= 0 on the current path
+	held      map[string]int // mutexes held on the current path (key: object id / field path)
+	guards    []lockGuard    // state declared to be guarded by a mutex (ndGuardedBy)
 	rawKeys   map[*Obj]Value // byte buffers holding a KeyCodec-encoded key (kept structural)
 	LabelFinding map[string]string // assert label -> known-finding id it is split by (ndAssertK)
 	StoreOps  int // collection accesses on the current path
@@ -233,6 +235,7 @@ func (ex *Exec) runOnce(fn *ssa.Function) {
 	ex.beMemo = map[string]Term{}
 	ex.divMemo = map[string][2]Term{}
 	ex.nnVars = map[int]bool{}
+	ex.held, ex.guards = map[string]int{}, nil
 	ex.StoreOps, ex.cfgEpoch = 0, 0
 	ex.constMemo = map[string]Term{}
 	ex.addrHex = map[string][]Term{}
@@ -1962,6 +1965,7 @@ func (ex *Exec) mapUpdate(m VMap, k, v Value) {
 	if m.M == nil {
 		panic(goPanic{"assignment to entry in nil map"})
 	}
+	ex.guardCheck(m.M)
 	if i := ex.mapFind(m.M, k); i >= 0 {
 		m.M.Vals[i] = v
 		return
@@ -1978,6 +1982,7 @@ func (ex *Exec) lookup(fr *frame, x *ssa.Lookup) Value {
 		var res Value = ex.zero(et)
 		ok := false
 		if b.M != nil {
+			ex.guardCheck(b.M)
 			if i := ex.mapFind(b.M, ex.val(fr, x.Index)); i >= 0 {
 				res, ok = b.M.Vals[i], true
 			}
@@ -2020,6 +2025,7 @@ func (ex *Exec) rangeInit(v Value) Value {
 	}
 	rs := &rangeState{}
 	if m.M != nil {
+		ex.guardCheck(m.M)
 		rs.m = m.M
 		n := len(m.M.Keys)
 		remaining := make([]int, n)
@@ -2126,6 +2132,7 @@ func (ex *Exec) builtin(fr *frame, b *ssa.Builtin, cc *ssa.CallCommon, args []Va
 			panic(unsupported{"delete on a non-map"})
 		}
 		if m.M != nil {
+			ex.guardCheck(m.M)
 			if i := ex.mapFind(m.M, args[1]); i >= 0 {
 				m.M.Keys = append(append([]Value{}, m.M.Keys[:i]...), m.M.Keys[i+1:]...)
 				m.M.Vals = append(append([]Value{}, m.M.Vals[:i]...), m.M.Vals[i+1:]...)
@@ -2156,6 +2163,7 @@ func (ex *Exec) builtin(fr *frame, b *ssa.Builtin, cc *ssa.CallCommon, args []Va
 			if x.M == nil {
 				return VInt{IntC(0)}
 			}
+			ex.guardCheck(x.M)
 			return VInt{IntC(int64(len(x.M.Keys)))}
 		}
 	case "cap":
@@ -2258,4 +2266,92 @@ func (ex *Exec) hexNumLess(x, y VStr) Term {
 		q, _ := ex.divModPos(vx, pow16(lx-ly))
 		return Lt(q, vy)
 	}
+}
+
+// ---- lock discipline (the sequential proof obligation behind "goroutine safe"): a harness declares that everything
+// reachable from a root is guarded by a mutex (ndGuardedBy); every map read or write on such state must then happen
+// while that mutex is held. With every operation's accesses inside one critical section of one mutex, concurrent
+// calls are atomic with respect to each other and there is no data race on that state.
+
+type lockGuard struct {
+	root  VPtr
+	muKey string
+}
+
+const guardLabel = "shared-state-accessed-only-with-the-lock-held"
+
+func muKey(p VPtr) string {
+	if p.O == nil {
+		panic(goPanic{"nil mutex"})
+	}
+	return fmt.Sprintf("%d/%v", p.O.ID, p.Path)
+}
+
+func (ex *Exec) guardCheck(mo *MapObj) {
+	for _, g := range ex.guards {
+		if ex.held[g.muKey] > 0 || ex.held[g.muKey+"/r"] > 0 {
+			if reachesMap(g.root.load(), mo, map[interface{}]bool{}) {
+				ex.Discharged[guardLabel]++
+			}
+			continue
+		}
+		if reachesMap(g.root.load(), mo, map[interface{}]bool{}) {
+			if ex.queryAll(BoolC(true)) == "sat" {
+				ex.recordViolation(guardLabel, "race", "", "")
+			}
+		}
+	}
+}
+
+func reachesMap(v Value, mo *MapObj, seen map[interface{}]bool) bool {
+	switch x := v.(type) {
+	case VMap:
+		if x.M == nil || seen[x.M] {
+			return false
+		}
+		if x.M == mo {
+			return true
+		}
+		seen[x.M] = true
+		for i := range x.M.Keys {
+			if reachesMap(x.M.Keys[i], mo, seen) || reachesMap(x.M.Vals[i], mo, seen) {
+				return true
+			}
+		}
+	case VStruct:
+		for _, f := range x.F {
+			if reachesMap(f, mo, seen) {
+				return true
+			}
+		}
+	case VArr:
+		for _, e := range x.E {
+			if reachesMap(e, mo, seen) {
+				return true
+			}
+		}
+	case VPtr:
+		if x.O == nil || seen[x.O] {
+			return false
+		}
+		seen[x.O] = true
+		return reachesMap(x.O.V, mo, seen)
+	case VSlice:
+		if x.O == nil || seen[x.O] {
+			return false
+		}
+		seen[x.O] = true
+		return reachesMap(x.O.V, mo, seen)
+	case VIface:
+		if x.V != nil {
+			return reachesMap(x.V, mo, seen)
+		}
+	case VTuple:
+		for _, e := range x {
+			if reachesMap(e, mo, seen) {
+				return true
+			}
+		}
+	}
+	return false
 }
